@@ -51,10 +51,10 @@ func runC13(c *Ctx, pr *PropertyRun) {
 	// a request path or Destination that does not denote a resource (NUL,
 	// not absolute after cleaning) is refused with 4xx by the sanitiser: its
 	// decision table (shared with C03.sanitiser-shape)
-	if san := c.P.MustFunc(nil2rule(pr, "C13"), pkgWebdav, "(LocalFileSystem).localPath"); san != nil {
-		shape := NewRule("C13", "C13.path-refusal", "decision table of localPath: 4xx exactly for names with NUL or whose path.Clean form is not absolute; nothing else is refused and nothing else accepted (E2, shared with C03)")
-		shape.Exhaustive = true
-		pr.Rules = append(pr.Rules, shape)
+	shape := NewRule("C13", "C13.path-refusal", "decision table of localPath: 4xx exactly for names with NUL or whose path.Clean form is not absolute; nothing else is refused and nothing else accepted (E2, shared with C03)")
+	shape.Exhaustive = true
+	pr.Rules = append(pr.Rules, shape)
+	if san := c.P.MustFunc(shape, pkgWebdav, "(LocalFileSystem).localPath"); san != nil {
 		c03Shape(c, shape, san, c.P)
 	}
 }
@@ -1014,9 +1014,3 @@ func posOf(p *Program, o *errOrigin) string {
 	return p.Pos(o.Fn.Pos())
 }
 
-// nil2rule returns a scratch rule to record an unresolved anchor on.
-func nil2rule(pr *PropertyRun, prop string) *RuleResult {
-	r := NewRule(prop, prop+".anchors", "anchors resolved")
-	pr.Rules = append(pr.Rules, r)
-	return r
-}
